@@ -3,9 +3,11 @@
 // C07: proto/generic reads (GetByPath, GetByPathWithAddress, Field/FieldByName/Index/GetByStr/GetByInt, GetMany,
 // Children, PathNode.Load, typed casts, Interface) on reference-encoded messages of generated proto3 schemas.
 // Case lines (the Gallina side decodes the reference bytes itself with the proved decoder):
-//   701 <schema> x<bytes> <value reported by the reference>                               model vs reference
-//   702 <schema> x<bytes> n<api> n<#q> { <path> n<status> n<type> x<raw> }                 element lookups
-//   703 <schema> x<bytes> n<#q> { <path> n<cast> n<status> <value> }                       typed casts / Interface
+//
+//	701 <schema> x<bytes> <value reported by the reference>                               model vs reference
+//	702 <schema> x<bytes> n<api> n<#q> { <path> n<status> n<type> x<raw> }                 element lookups
+//	703 <schema> x<bytes> n<#q> { <path> n<cast> n<status> <value> }                       typed casts / Interface
+//
 // path = n<#steps> { n1 n<field number> | n2 x<field name> | n3 n<index> | n4 x<string key> | n5 n<int key> }
 // status: 0 found, 1 not found, 2 other error, 3 panic
 package main
@@ -429,41 +431,45 @@ func genC07(r *rng, n int) {
 				}
 				return c07ObsNode(cur.Node)
 			})
-			// 5: GetMany on the parent with the last step (+ up to two sibling steps taken from the other paths)
-			emit702(5, false, func(p c07Path) []string {
-				l := len(p.Steps)
-				parent := root()
-				if l > 1 {
-					parent = root().GetByPath(p.goPath(false)[:l-1]...)
-				}
-				if parent.IsError() {
-					return []string{fi(2), fi(-1), fx(nil)}
-				}
-				pn := []generic.PathNode{{Path: p.Steps[l-1].goPath(false)}}
-				for _, q := range all {
-					if len(pn) >= 3 {
-						break
+			// 5: GetMany on the parent with the last step only; 9: plus up to two sibling steps taken from the other paths
+			getMany := func(siblings bool) func(p c07Path) []string {
+				return func(p c07Path) []string {
+					l := len(p.Steps)
+					parent := root()
+					if l > 1 {
+						parent = root().GetByPath(p.goPath(false)[:l-1]...)
 					}
-					if len(q.Steps) == l && q.Steps[l-1] != p.Steps[l-1] && q.Steps[l-1].Kind == p.Steps[l-1].Kind {
-						same := true
-						for i := 0; i < l-1; i++ {
-							if q.Steps[i] != p.Steps[i] {
-								same = false
+					if parent.IsError() {
+						return []string{fi(2), fi(-1), fx(nil)}
+					}
+					pn := []generic.PathNode{{Path: p.Steps[l-1].goPath(false)}}
+					for _, q := range all {
+						if !siblings || len(pn) >= 3 {
+							break
+						}
+						if len(q.Steps) == l && q.Steps[l-1] != p.Steps[l-1] && q.Steps[l-1].Kind == p.Steps[l-1].Kind {
+							same := true
+							for i := 0; i < l-1; i++ {
+								if q.Steps[i] != p.Steps[i] {
+									same = false
+								}
+							}
+							if same {
+								pn = append(pn, generic.PathNode{Path: q.Steps[l-1].goPath(false)})
 							}
 						}
-						if same {
-							pn = append(pn, generic.PathNode{Path: q.Steps[l-1].goPath(false)})
-						}
 					}
+					// the queried path goes to a random position
+					at := int(uint(len(bs)+l) % uint(len(pn)))
+					pn[0], pn[at] = pn[at], pn[0]
+					if err := parent.GetMany(pn, opts); err != nil {
+						return []string{fi(c07ErrStatus(err)), fi(-2), fx(nil)}
+					}
+					return c07ObsNode(pn[at].Node)
 				}
-				// the queried path goes to a random position
-				at := int(uint(len(bs)+l) % uint(len(pn)))
-				pn[0], pn[at] = pn[at], pn[0]
-				if err := parent.GetMany(pn, opts); err != nil {
-					return []string{fi(c07ErrStatus(err)), fi(-2), fx(nil)}
-				}
-				return c07ObsNode(pn[at].Node)
-			})
+			}
+			emit702(5, false, getMany(false))
+			emit702(9, false, getMany(true))
 			// 6: Children(recurse=false) of the parent
 			emit702(6, false, func(p c07Path) []string {
 				l := len(p.Steps)
@@ -582,6 +588,9 @@ func genC07(r *rng, n int) {
 					add(8, func() (int, []string) {
 						x, e := v.Interface(opts)
 						if e != nil {
+							if c07Debug {
+								fmt.Fprintf(os.Stderr, "interface path %v: %v\n", p.fields(false, nil, vr), e)
+							}
 							return c07ErrStatus(e), nil
 						}
 						var d []string
